@@ -12,6 +12,7 @@ import (
 func init() { gens["c04.match"] = genC04Match }
 
 func genC04Match(r *rng, n int, w *bufio.Writer) {
+	r = eReseed(r)
 	for i := 0; i < n; i++ {
 		f, t := eGenValidNetRule(r)
 		q := eAimedRequest(r, f, t)
